@@ -61,7 +61,93 @@ def build(cfg):
     return m, x
 
 
+def call(m, x):
+    """forward on the fixed batch (a tuple for multi-input networks)"""
+    return m(*x) if isinstance(x, tuple) else m(x)
+
+
 def _build(cfg):
+    arch = cfg.get('arch', 'base')
+    if arch != 'base':
+        return _build_zoo(cfg, arch)
+    return _build_base(cfg)
+
+
+def _build_zoo(cfg, arch):
+    """further topologies: 'tcn' = causal Conv1d network with explicit ConstantPad1d modules padding with NON-ZERO values in
+    front of padding-0 searchable convolutions, receptive-field / dilation masks pruned before any observer runs;
+    'fusion' = two-input network that concatenates its raw inputs (all operands of the cat have constant feature counts)"""
+    torch, nn = T()
+    method = cfg['method']
+    torch.manual_seed(SEED_BUILD)
+    sp = specs_for(method)[cfg['spec0']]
+    g = torch.Generator().manual_seed(7)
+    if arch == 'tcn':
+        from plinio.methods import PIT
+
+        class TCN(nn.Module):
+            def __init__(s):
+                super().__init__()
+                s.pad0 = nn.ConstantPad1d((8, 0), -1.0)
+                s.conv0 = nn.Conv1d(3, 6, 9, padding=0)
+                s.bn0 = nn.BatchNorm1d(6)
+                s.pad1 = nn.ConstantPad1d((4, 0), 0.5)
+                s.conv1 = nn.Conv1d(6, 5, 5, padding=0)
+                s.pool = nn.AdaptiveAvgPool1d(1)
+                s.fc = nn.Linear(5, 3)
+
+            def forward(s, x):
+                x = torch.relu(s.bn0(s.conv0(s.pad0(x))))
+                x = torch.relu(s.conv1(s.pad1(x)))
+                return s.fc(s.pool(x).flatten(1))
+        net = TCN()
+        net.train(cfg['train'])
+        m = PIT(net, input_shape=(3, 20), cost=sp, full_cost=cfg['full_cost'])
+        with torch.no_grad():
+            for _, q in m.named_nas_parameters():
+                q.copy_(torch.rand(q.shape) * 1.2)
+            # what a search does: the oldest time steps / some dilation levels are masked out
+            m.seed.conv0.timestep_masker.beta.copy_(torch.tensor([0., 0., 0., 0., 1., 1., 1., 1., 1.]))
+            m.seed.conv1.dilation_masker.gamma.copy_(torch.tensor([0., 1., 1.]))
+        x = torch.randn(2, 3, 20, generator=g)
+        return m, x
+    if arch == 'fusion':
+        class Fusion(nn.Module):
+            def __init__(s):
+                super().__init__()
+                s.conv0 = nn.Conv2d(5, 6, 3, padding=1)
+                s.bn0 = nn.BatchNorm2d(6)
+                s.conv1 = nn.Conv2d(6, 4, 3, padding=1)
+                s.pool = nn.AdaptiveAvgPool2d(1)
+                s.fc = nn.Linear(4, 3)
+
+            def forward(s, a, b):
+                x = torch.cat((a, b), dim=1)
+                x = torch.relu(s.bn0(s.conv0(x)))
+                x = torch.relu(s.conv1(x))
+                return s.fc(s.pool(x).flatten(1))
+        net = Fusion()
+        net.train(cfg['train'])
+        a, b = torch.randn(2, 3, 6, 6, generator=g), torch.randn(2, 2, 6, 6, generator=g)
+        if method == 'PIT':
+            from plinio.methods import PIT
+            m = PIT(net, input_example=(a[:1], b[:1]), cost=sp, full_cost=cfg['full_cost'])
+            with torch.no_grad():
+                for _, q in m.named_nas_parameters():
+                    q.copy_(torch.rand(q.shape) * 1.2)
+        else:
+            from plinio.methods import MPS
+            from plinio.methods.mps import get_default_qinfo
+            m = MPS(net, input_example=(a[:1], b[:1]), cost=sp, full_cost=cfg['full_cost'], gumbel_softmax=cfg['gumbel'],
+                    qinfo=get_default_qinfo(w_precision=(2, 4, 8), a_precision=(4, 8)))
+            with torch.no_grad():
+                for _, q in m.named_nas_parameters():
+                    q.copy_(torch.rand(q.shape))
+        return m, (a, b)
+    raise ValueError(arch)
+
+
+def _build_base(cfg):
     torch, nn = T()
     method = cfg['method']
     torch.manual_seed(SEED_BUILD)
@@ -179,6 +265,20 @@ def sampling(m):
     return out
 
 
+def attrs(m):
+    """plain (non-tensor, non-module) public attributes of every module, e.g. padding / value / stride / p / eps of the plain
+    layers that the NAS model shares with the user's model and with the exported network (the shape keys that a cost call writes
+    through vars(layer) are tracked separately as `polluted`)"""
+    def ok(v, d=0):
+        return isinstance(v, (int, float, bool, str, type(None))) or (d < 2 and isinstance(v, (tuple, list)) and all(ok(w, d + 1) for w in v))
+    out = []
+    for n, mod in m.named_modules():
+        for k, v in sorted(vars(mod).items()):
+            if not k.startswith('_') and k not in ('training', 'input_shape', 'output_shape') and ok(v):
+                out.append((n, k, repr(v)))
+    return out
+
+
 def flags(m, cfg):
     fl = [(n, mod.training) for n, mod in m.named_modules()]
     sub = {id(mod) for mod in sub_modules(m, cfg)}
@@ -246,6 +346,8 @@ def fingerprint(m, x, deep=True, cfg=None):
         'rng': rng_hash(),
         'reqgrad': hj([(k, p.requires_grad) for k, p in m.named_parameters()]),
         'sampling': hj(sampling(m)),
+        'attrs': hj(attrs(m)),
+        'attrs_v': ['%s.%s=%s' % t for t in attrs(m)],
         'sampling_v': sorted({'hard=%s gumbel=%s disable_sampling=%s temperature=%s fn=%s' % t[1:] for t in sampling(m)}),
     }
     fp['polluted'] = polluted(m)
@@ -263,7 +365,7 @@ def fingerprint(m, x, deep=True, cfg=None):
             c = clone(m)
             torch.manual_seed(SEED_PROBE)
             with torch.no_grad():
-                fp['output'] = th(c(x))
+                fp['output'] = th(call(c, x))
         finally:
             torch.random.set_rng_state(saved)
     return fp
@@ -298,7 +400,7 @@ def apply_op(m, x, op, method):
             return 'ok'
         if op == 'forward':
             with torch.no_grad():
-                return th(m(x))
+                return th(call(m, x))
         if op == 'train_step':
             ps = [p for p in m.parameters() if p.requires_grad]
             for p in ps:
@@ -308,7 +410,7 @@ def apply_op(m, x, op, method):
             for mod in m.modules():
                 if getattr(mod, 'disable_sampling', False) and isinstance(getattr(mod, 'theta_alpha', None), torch.Tensor) and mod.theta_alpha.grad_fn is not None:
                     mod.theta_alpha = mod.theta_alpha.detach()
-            y = m(x)
+            y = call(m, x)
             loss = (y ** 2).mean()
             try:
                 c = m.cost if not isinstance(m.cost_specification, dict) else m.get_cost('a')
